@@ -232,6 +232,33 @@ pub fn run(tier: &str, only: Option<String>) -> i32 {
     let exp = expected(&u, &s);
     let me = std::env::current_exe().expect("own path");
 
+    // (e) supplementary: the same kind of thread bodies under Miri's data-race detector; started
+    // first so that it overlaps the other parts, collected at the end
+    let race_dir = std::env::var("VRACE_DIR").ok().filter(|s| !s.is_empty());
+    let race_log = "/verif/.child-C18-miri.log";
+    let race_seeds = if thorough { 48 } else { 4 };
+    let race_args: (&str, &str) = if thorough { ("4", "2") } else { ("3", "1") };
+    let mut race_child = None;
+    if let Some(dir) = &race_dir {
+        if run.only.as_ref().map(|k| k == "miri-race").unwrap_or(true) {
+            let _ = std::fs::remove_file(race_log);
+            let f = std::fs::File::create(race_log).expect("race log");
+            let f2 = f.try_clone().expect("clone");
+            let ch = std::process::Command::new("cargo")
+                .args(["+nightly", "miri", "run", "--offline", "-q", "-p", "race", "--", race_args.0, race_args.1])
+                .current_dir(dir)
+                .env("CARGO_TARGET_DIR", "/verif/.target-witness")
+                .env("MIRIFLAGS", format!("-Zmiri-disable-isolation -Zmiri-ignore-leaks -Zmiri-many-seeds=0..{race_seeds}"))
+                .stdout(f)
+                .stderr(f2)
+                .spawn();
+            match ch {
+                Ok(c) => race_child = Some(c),
+                Err(e) => run.caps_hit.push(format!("Miri data-race run could not be started: {e}")),
+            }
+        }
+    }
+
     // (b) call histories, each in a fresh process
     let depth = if thorough { 4 } else { 3 };
     let seqs: Vec<Vec<usize>> = sequences(depth)
@@ -436,10 +463,37 @@ pub fn run(tier: &str, only: Option<String>) -> i32 {
             run.stats.add("schedule_harnesses", harnesses);
         }
     }
+    if let Some(mut ch) = race_child {
+        let limit = std::time::Duration::from_secs(if thorough { 3600 } else { 900 });
+        if bridge::rt::wait_with_timeout(&mut ch, limit).is_none() {
+            eprintln!("MACHINERY: the Miri data-race run did not finish within {limit:?}");
+            return 2;
+        }
+        let log = std::fs::read_to_string(race_log).unwrap_or_default();
+        let _ = std::fs::remove_file(race_log);
+        let ok = log.lines().filter(|l| l.starts_with("RACE-OK")).count() as u64;
+        run.stats.add("miri_data_race_runs_clean(supplementary, one schedule per seed)", ok);
+        let excerpt = |pat: &str| -> String {
+            let i = log.find(pat).unwrap_or(0);
+            log[i..].chars().take(600).collect()
+        };
+        if let Some(l) = log.lines().find(|l| l.starts_with("RACE-DIFF")) {
+            run.stats.violate("C18 threads under Miri: a call returned something else than alone".into(), "miri-race".into(), json!({"line": l.chars().take(400).collect::<String>()}));
+        } else if log.contains("Undefined Behavior") {
+            let kind = if log.contains("Data race detected") { "data race" } else { "undefined behaviour" };
+            run.stats.violate(format!("C18 threads under Miri: {kind} between concurrent calls"), "miri-race".into(), json!({"miri": excerpt("Undefined Behavior")}));
+        } else if log.contains("thread panicked") || log.contains("panicked at") {
+            run.stats.violate("C18 threads under Miri: a call panicked under contention".into(), "miri-race".into(), json!({"miri": excerpt("panicked")}));
+        } else if ok != race_seeds {
+            machinery_note = Some(format!("Miri data-race run ended with {ok} of {race_seeds} clean seeds and no diagnosis: {}", log.chars().rev().take(400).collect::<String>().chars().rev().collect::<String>()));
+        }
+    } else if run.only.is_none() {
+        run.caps_hit.push("Miri data-race run not performed (VRACE_DIR not provided)".into());
+    }
     run.stats.add("call_sequences_in_fresh_processes", seqs.len() as u64);
     run.rule = format!("(a) every interleaving (shuttle DFS, no preemption bound) of 2{} threads each doing one of 7 calls, under three hook filters (string/ref tables; record open/finish and context creation; field writes/reads), metadata statics initialised under contention in every schedule; (b) all {} sequences of depth <= {} over 11 calls (one fails half-way through a record, one fills the reference table, one cites a reference that was never introduced), each in a fresh process; (c) every value of the universe encoded twice from the same instance. Oracle: every call returns what it returns alone and what the reference model prescribes. Non-trivial = schedules with >= 2 threads, sequences with >= 2 calls.", if thorough { " and 3" } else { "" }, seqs.len(), depth);
     run.bounds = json!({"threads": if thorough { 3 } else { 2 }, "sequence_depth": depth});
-    run.extra.insert("supplementary_sampled_part".into(), json!("(d) 200 / 2000 fresh processes, 8 free-running OS threads each released by a barrier; this part SAMPLES schedules of the operating system and is not part of the exhaustive claim"));
+    run.extra.insert("supplementary_sampled_part".into(), json!("(d) 200 / 2000 fresh processes, 8 free-running OS threads each released by a barrier; this part SAMPLES schedules of the operating system and is not part of the exhaustive claim; (e) 4 / 48 Miri runs (one deterministic schedule per seed) of 3 / 4 real threads doing first-use and steady-state calls, with Miri's data-race detector as the monitor for unsynchronised accesses that the cooperative scheduler of (a) cannot see - also sampled"));
     run.assumptions = vec![
         "interleavings are at the granularity of scheduling points: shuttle lazy_static accesses of derived metadata, desert_verif hook points, spawn/join".into(),
         "std::sync::Once under lazy_static is replaced by shuttle's model for derived metadata (trusted); EMPTY_ADT_METADATA keeps the real lazy_static".into(),
